@@ -228,7 +228,9 @@ def main():
     # ---------------------------------------------------------------- (M)
     mc_states = 0
     mc_trans = 0
-    if not replay:
+    # VERIF_SKIP_MC=1 (used by tools/mutant_eval.sh only): a seeded change of the Rust code cannot affect the
+    # model-only stage, so evaluating it skips that stage; the registered commands never set it
+    if not replay and not os.environ.get("VERIF_SKIP_MC"):
         for mc in P.get("mc", []):
             if tier not in mc.get("tiers", ("quick", "thorough")):
                 continue
